@@ -21,12 +21,24 @@ Theorem C19_iterate : forall n, iterate n = leaves n.
 Proof. exact iterate_leaves. Qed.
 Print Assumptions C19_iterate.
 
-(* order and grouping: every surviving leaf keeps its position path *)
+(* order and grouping: the surviving leaves are the chosen ones, in order, each inside the same
+   original suites (in this model every surviving leaf even keeps its position path, because a removed
+   test leaves an empty suite in its slot; the statement and the correspondence only speak of the
+   enclosing suites, [grouped]) *)
 Theorem C19_filter : forall keep n,
   paths (filter_ids keep n) = filter (fun p => keep (snd p)) (paths n)
-  /\ iterate (filter_ids keep n) = filter keep (iterate n).
-Proof. exact (fun keep n => conj (filter_paths keep n) (filter_iterate keep n)). Qed.
+  /\ iterate (filter_ids keep n) = filter keep (iterate n)
+  /\ map grouped (paths (filter_ids keep n)) = map grouped (filter (fun p => keep (snd p)) (paths n)).
+Proof. exact (fun keep n => conj (filter_paths keep n) (conj (filter_iterate keep n) (filter_grouping keep n))). Qed.
 Print Assumptions C19_filter.
+
+(* what [grouped] records: the suite at path q encloses the leaf at path p iff q is a proper prefix
+   of p; they are listed outermost first (lengths 0, 1, ...) *)
+Theorem C19_enclosing : forall p,
+  (forall q, In q (enclosing p) <-> exists r, r <> [] /\ p = q ++ r)
+  /\ map (@length nat) (enclosing p) = seq 0 (length p).
+Proof. exact (fun p => conj (enclosing_iff p) (enclosing_sorted p)). Qed.
+Print Assumptions C19_enclosing.
 
 Theorem C19_sorted : forall u n r, sorted_tests u n = Ok r ->
   Permutation (iterate r) (iterate n)
